@@ -277,7 +277,7 @@ def ref_sweep(lv, u, f, tau):
     return un, fn
 
 
-def ref_cycle(levels, R, P, nsweeps, u0):
+def ref_cycle(levels, R, P, nsweeps, u0, finter=False):
     """The multigrid-in-time iteration in explicit operator form, independent of the controller:
     spread; [restrict, mid sweeps]*, coarse sweep, [prolong, mid sweeps]*, fine sweeps. Scalar, exact."""
     nl = len(levels)
@@ -300,14 +300,17 @@ def ref_cycle(levels, R, P, nsweeps, u0):
         tau = [sum(Rc[n][m] * tF[m] for m in range(F['M'])) - tG[n] for n in range(G['M'])]
         if sF['tau'] is not None:
             tau = [tau[n] + sum(Rc[n][m] * sF['tau'][m] for m in range(F['M'])) for n in range(G['M'])]
-        sG.update(u=gu, f=gf, tau=tau, uold=list(gu))
+        sG.update(u=gu, f=gf, tau=tau, uold=list(gu), fold=list(gf))
 
     def prolong(k):       # level k+1 -> k
         F, G, Pc = levels[k], levels[k + 1], P[k]
         sF, sG = st[k], st[k + 1]
         for n in range(1, F['M'] + 1):
             sF['u'][n] = sF['u'][n] + sum(Pc[n - 1][m] * (sG['u'][m + 1] - sG['uold'][m + 1]) for m in range(G['M']))
-            sF['f'][n] = F['lam'] * sF['u'][n] + F['c'] * F['t'][n]
+            if finter:    # prolong_f: right-hand sides get the interpolated coarse correction, too
+                sF['f'][n] = sF['f'][n] + sum(Pc[n - 1][m] * (sG['f'][m + 1] - sG['fold'][m + 1]) for m in range(G['M']))
+            else:
+                sF['f'][n] = F['lam'] * sF['u'][n] + F['c'] * F['t'][n]
     restrict(0)
     for l in range(1, nl - 1):
         for _ in range(nsweeps[l]):
@@ -357,8 +360,9 @@ def part_E(ck, rng, n):
         u0 = rfrac(rng, -3, 3)
         u0v = [u0] if dims[0] == 1 else [rfrac(rng, -3, 3) for _ in range(dims[0])]
         scalar = all(d == 1 for d in dims)
+        finter = (i % 4 == 1)
         cfg = dict(kind='GI', levels=levels_cfg, num_procs=1, maxiter=1, restol=F(-1), dt=dt, predict_type=None, nsweeps=nsw,
-                   finter=False, small_tables=24)
+                   finter=finter, small_tables=24)
         try:
             C = er.build_controller(cfg)
             set_exact_lagrange(C)
@@ -380,12 +384,12 @@ def part_E(ck, rng, n):
             er.Recorder.log = []; er.Recorder.deep = True
             C.run(u0=ex.FracVec(u0v), t0=F(0), Tend=dt)
             log = er.Recorder.log
-            ref = ref_cycle(lv, R, P, nsw, u0) if scalar else None
+            ref = ref_cycle(lv, R, P, nsw, u0, finter) if scalar else None
         except (ZeroDivisionError, StopIteration):
             continue
         post = [e for e in log if e['cb'] == 'post_step'][0]
-        ck.case(key=('mgrit', nl, tuple(nn), tuple(nsw), tuple(l['QI'] for l in levels_cfg), tuple(dims)), nontrivial=True,
-                sample=dict(levels=nl, nodes=nn, nsweeps=nsw, dims=dims))
+        ck.case(key=('mgrit', nl, tuple(nn), tuple(nsw), tuple(l['QI'] for l in levels_cfg), tuple(dims), finter), nontrivial=True,
+                sample=dict(levels=nl, nodes=nn, nsweeps=nsw, dims=dims, finter=finter))
         ck.traces += 1
         for l in (range(nl) if scalar else []):
             got = [v[0] for v in post['levels'][l]['u']]
@@ -409,11 +413,11 @@ def part_E(ck, rng, n):
 
         def mxfer(k):
             Mf, Mc = lv[k]['M'], lv[k + 1]['M']
-            return ('{| mx_df := %d%%nat; mx_dc := %d%%nat; mx_Rs := %s; mx_Ps := %s; mx_Rcoll := %s; mx_Pcoll := %s |}'
-                    % (dims[k], dims[k + 1], qcm(RS[k]), qcm(PS[k]), qcm([[0] * (Mf + 1)] + [[0] + list(r) for r in R[k]]), qcm([[0] * (Mc + 1)] + [[0] + list(r) for r in P[k]])))
+            return ('{| mx_df := %d%%nat; mx_dc := %d%%nat; mx_Rs := %s; mx_Ps := %s; mx_Rcoll := %s; mx_Pcoll := %s; mx_finter := %s |}'
+                    % (dims[k], dims[k + 1], qcm(RS[k]), qcm(PS[k]), qcm([[0] * (Mf + 1)] + [[0] + list(r) for r in R[k]]), qcm([[0] * (Mc + 1)] + [[0] + list(r) for r in P[k]]), coq_bool(finter)))
         pred = [e for e in log if e['cb'] == 'post_predict'][0]['levels'][0]
         expected = [x for v in post['levels'][0]['u'][1:] for x in v] + [x for v in post['levels'][0]['f'][1:] for x in v]
-        mcases.append((dict(levels=nl, nodes=nn, nsweeps=nsw, dims=dims, QI=[x['QI'] for x in levels_cfg], lam=[str(x) for x in lams], c=str(c), dt=str(dt), u0=str(u0)),
+        mcases.append((dict(levels=nl, nodes=nn, nsweeps=nsw, dims=dims, finter=finter, QI=[x['QI'] for x in levels_cfg], lam=[str(x) for x in lams], c=str(c), dt=str(dt), u0=str(u0)),
                        '({| m_t0 := %s; m_fine := %s; m_rest := %s; m_u := %s; m_f := %s |}, %s)'
                        % (qc(F(0)), mlevel(0), coq_list(['(%s, %s)' % (mxfer(k), mlevel(k + 1)) for k in range(nl - 1)]),
                           qcm(pred['u']), qcm(pred['f']), qcl(expected))))
